@@ -27,7 +27,9 @@ theorem C08_unicast_only_addressee_service (fuel : Nat) (st : St) (n : Nat) (ser
   have h2 := (gAt (spec_true (cfgOf st)) fuel).icmp _ n server .dataReq h1 trivial
   unfold requestService at hev
   simp only at hev
-  split at hev <;> exact h2.log m fid ip hev
+  split at hev
+  · exact h1.log m fid ip hev
+  · split at hev <;> exact h2.log m fid ip hev
 
 /-- … and the interpreter never changes the configuration (interfaces, addresses, gateways, routes), so "owns" means the
 same before and after. -/
